@@ -36,7 +36,9 @@ def struct_of(prog):
         "ports": sorted((p.name, p.direction) for p in prog.ports),   # size null and the port's own variable `#name` are the same thing
         "resources": sorted((r.name, r.type) for r in prog.resources),
         "connections": sorted((c.source, c.target) for c in prog.connections),
-        "linked_params": sorted((str(lk.source), tuple(sorted(lk.targets))) for lk in prog.linked_params),
+        # several entries with the same source are one link with the union of the targets (that is how they are read)
+        "linked_params": sorted((src, tuple(sorted(t for lk in prog.linked_params if str(lk.source) == src for t in lk.targets)))
+                                for src in {str(lk.source) for lk in prog.linked_params}),
         "local_variables": sorted(prog.local_variables),
         "repetition": None if prog.repetition is None else (prog.repetition.sequence.type,
                                                             sorted(k for k, v in prog.repetition.sequence.model_dump().items() if v is not None)),
